@@ -50,6 +50,22 @@ var flipOp = map[string]string{"==": "==", "!=": "!=", "<": ">", "<=": ">=", ">"
 var negOp = map[string]string{"==": "!=", "!=": "==", "<": ">=", "<=": ">", ">": "<=", ">=": "<"}
 
 // matchCond decides whether cond (an If condition) tests c, and on which edge c holds.
+// anySpelling: the predicate holds for the path of v as printed, with accessors expanded, or — for a symmetric test
+// `a.Equal(b)` — with the operands exchanged.
+func anySpelling(v ssa.Value, pred func(string) bool) bool {
+	if pred(pathOf(v)) || pred(pathOfX(v)) {
+		return true
+	}
+	if c, ok := v.(*ssa.Call); ok && c.Call.StaticCallee() != nil && len(c.Call.Args) == 2 {
+		if n := c.Call.StaticCallee().Name(); n == "Equal" || n == "Equals" {
+			if types.Identical(deptr(c.Call.Args[0].Type()), deptr(c.Call.Args[1].Type())) {
+				return pred("call:" + calleeName(&c.Call) + "(" + pathOf(c.Call.Args[1]) + ", " + pathOf(c.Call.Args[0]) + ")")
+			}
+		}
+	}
+	return false
+}
+
 // equivCmps lists comparisons equivalent to b as (left, op, right) path triples.
 func equivCmps(b *ssa.BinOp) [][3]string {
 	var out [][3]string
@@ -149,7 +165,7 @@ func matchCond(c Cond, cond ssa.Value) (matched, passOnTrue bool) {
 			// comparing a boolean against a constant true/false
 			_ = b
 		}
-		if re(c.L).MatchString(pathOf(cond)) || re(c.L).MatchString(pathOfX(cond)) {
+		if anySpelling(cond, func(p string) bool { return re(c.L).MatchString(p) }) {
 			pass := c.Op == "T"
 			if neg {
 				pass = !pass
